@@ -196,37 +196,82 @@ def rule_s4_s5(ctx, table):
     core = ctx.repo.module('core')
     w = ctx.repo.cls('core._CacheWrapper')
     init = w.own('__init__').node
-    # effective serialiser / deserialiser attributes
-    pair = None
-    for n in A.walk_local(init):
-        if isinstance(n, ast.Assign) and isinstance(n.targets[0], ast.Tuple) and isinstance(n.value, ast.Call) \
-                and A.dotted(n.value.func) == '_get_serialize_and_deserialize':
-            pair = (n.targets[0].elts[0].attr, n.targets[0].elts[1].attr, n)
-    if pair is None:
-        raise AnalysisError('undecidable shape: _CacheWrapper does not obtain a (serialise, deserialise) pair')
-    ser_attr, de_attr, _ = pair
-    eff = {m: [v[0], v[1]] for m, v in table.items()}
+    # effective serialiser / deserialiser per mode: abstract evaluation of the constructor body, mode by mode
     mparam = init.args.args[1].arg if len(init.args.args) > 1 else 'immutable_warranty'
-    for n in A.walk_local(init):
-        if isinstance(n, ast.Assign) and A.is_self_attr(n.targets[0]) and n.targets[0].attr in (ser_attr, de_attr) \
-                and not isinstance(n.targets[0], ast.Tuple):
-            cls_fn = _classify_fn(n.value, core)
-            modes = None
-            for test0, branch in flow.guards_of(n, init):
-                test, neg = A.strip_not(test0)
-                effb = (branch != neg)
-                if not (isinstance(test, ast.Compare) and A.is_name(test.left, mparam) and len(test.ops) == 1
-                        and isinstance(test.comparators[0], ast.Constant)):
-                    continue
-                is_eq = (isinstance(test.ops[0], ast.Eq) and effb) or (isinstance(test.ops[0], ast.NotEq) and not effb)
-                is_ne = (isinstance(test.ops[0], ast.NotEq) and effb) or (isinstance(test.ops[0], ast.Eq) and not effb)
-                if is_eq:
-                    modes = [test.comparators[0].value]
-                elif is_ne:
-                    modes = [m for m in eff if m != test.comparators[0].value]
-            for m in (modes if modes is not None else list(eff)):
-                if m in eff:
-                    eff[m][0 if n.targets[0].attr == ser_attr else 1] = cls_fn
+
+    def run_mode(mode):
+        env = {}
+
+        def val(e):
+            if isinstance(e, ast.Name) and e.id in env:
+                return env[e.id]
+            if A.is_self_attr(e) and ('self.' + e.attr) in env:
+                return env['self.' + e.attr]
+            return _classify_fn(e, core)
+
+        def key_of(t):
+            if isinstance(t, ast.Name):
+                return t.id
+            if A.is_self_attr(t):
+                return 'self.' + t.attr
+            return None
+
+        def truth(test):
+            t, neg = A.strip_not(test)
+            if isinstance(t, ast.Compare) and len(t.ops) == 1 and A.is_name(t.left, mparam) \
+                    and isinstance(t.comparators[0], ast.Constant):
+                r = (t.comparators[0].value == mode)
+                if isinstance(t.ops[0], ast.NotEq):
+                    r = not r
+                elif not isinstance(t.ops[0], ast.Eq):
+                    return None
+                return r != neg
+            return None
+
+        def run(stmts):
+            for s_ in stmts:
+                if isinstance(s_, ast.Assign) and len(s_.targets) == 1:
+                    tg = s_.targets[0]
+                    if isinstance(tg, ast.Tuple) and isinstance(s_.value, ast.Call) \
+                            and A.dotted(s_.value.func) == '_get_serialize_and_deserialize' and len(tg.elts) == 2:
+                        for k_, v_ in zip(tg.elts, table.get(mode, ('?', '?'))[:2]):
+                            if key_of(k_):
+                                env[key_of(k_)] = v_
+                    elif key_of(tg):
+                        env[key_of(tg)] = val(s_.value)
+                elif isinstance(s_, ast.If):
+                    tr = truth(s_.test)
+                    if tr is True:
+                        run(s_.body)
+                    elif tr is False:
+                        run(s_.orelse)
+                    else:
+                        run(s_.body)
+                        run(s_.orelse)
+        run(init.body)
+        return env
+    st0 = w.own('__setitem__').node
+    ld0 = w.own('__getitem__').node
+    ser_attr = de_attr = None
+    for n in A.walk_local(st0):
+        if isinstance(n, ast.Call) and A.is_self_attr(n.func) and n.args and A.is_name(n.args[0], st0.args.args[2].arg):
+            ser_attr = n.func.attr
+    for n in A.walk_local(ld0):
+        if isinstance(n, ast.Call) and A.is_self_attr(n.func) and isinstance(A.parent(n), ast.Return):
+            de_attr = n.func.attr
+    if ser_attr is None:
+        rep.ob('S4', K.key(w, '__setitem__', 'stores-serialise(value)'), False, st0,
+               'the memory cache stores the value without applying a serialiser of the wrapper')
+    if de_attr is None:
+        rep.ob('S5', K.key(w, '__getitem__', 'loads-deserialise(stored)'), False, ld0,
+               'the memory cache returns the stored payload without applying a deserialiser of the wrapper: every hit '
+               'hands out the stored object itself')
+    if ser_attr is None or de_attr is None:
+        return
+    eff = {}
+    for m in table:
+        env = run_mode(m)
+        eff[m] = [env.get('self.' + ser_attr, '?'), env.get('self.' + de_attr, '?')]
     st = w.own('__setitem__').node
     ld = w.own('__getitem__').node
     ok_store = any(isinstance(n, ast.Assign) and isinstance(n.targets[0], ast.Subscript)
